@@ -3775,7 +3775,9 @@ static Token *global_variable(Token *tok, Type *basety, VarAttr *attr) {
       // A declaration with an initializer is a definition even if "extern".
       var->is_definition = true;
       gvar_initializer(&tok, tok->next, var);
-    } else if (!attr->is_extern && !attr->is_tls) {
+    } else if (!attr->is_extern) {
+      // A thread-local variable may be declared again, too. It is
+      // never emitted as a common symbol, though.
       var->is_tentative = true;
     }
   }
